@@ -308,9 +308,26 @@ class MultiMutant(Mutant):
         return text
 
 
+class PatchMutant(Mutant):
+    """a stored change set (unified diff, possibly over several files) as an in-memory variant; kind 'break' (seeded changes: any
+    new finding or a stopped analysis counts) or 'silent' (refactorings: no new finding; `allow_undecided`: the analysis may stop)"""
+
+    def __init__(self, name, patch, kind, allow_undecided=False):
+        Mutant.__init__(self, name, None, None, None, None, None, 1, kind)
+        self.patch = patch
+        self.allow_undecided = allow_undecided
+
+    def build(self, ctx):
+        from . import patchsets
+        return patchsets.overrides(ctx, self.patch)
+
+
 def all_mutants(mod, prop):
     from .redteam_cases import CASES
-    return list(getattr(mod, "MUTANTS", [])) + [MultiMutant("redteam-" + k, rel, edits) for k, (p_, rel, edits) in CASES.items() if p_ == prop]
+    from . import patchsets
+    out = list(getattr(mod, "MUTANTS", [])) + [MultiMutant("redteam-" + k, rel, edits) for k, (p_, rel, edits) in CASES.items() if p_ == prop]
+    out += [PatchMutant(name, path, kind, exp == 2) for name, kind, path, exp in patchsets.stored(prop)]
+    return out
 
 
 def run_property(prop, tier, overrides=None, repo=None):
@@ -330,11 +347,13 @@ def _mutant_job(args):
         if text is None:
             return (m_idx, "unbuildable", "")
         try:
-            ctx, _ = run_property(prop, "quick", {m.rel: text}, repo)
+            ctx, _ = run_property(prop, "quick", text if isinstance(text, dict) else {m.rel: text}, repo)
         except AnalysisError as e:
             # a mutant that destroys an anchor is detected as analysis error:
             # counts as caught only for kind 'break' (the run would not pass)
             if m.kind == "silent":
+                if getattr(m, "allow_undecided", False):
+                    return (m_idx, "hits", [])          # recorded expectation: this restructuring cannot be decided
                 return (m_idx, "silent-alarm", ["ANALYSIS-ERROR " + str(e)])
             return (m_idx, "caught-as-analysis-error" if m.kind == "break" else "error", str(e))
         if m.kind == "silent":
